@@ -30,6 +30,10 @@ func (fv *FV) heapInit(key string, hint Val) Val {
 			fv.sess.decl("heap:"+key, fmt.Sprintf("(declare-const %s %s)", name, sort))
 			// everything stored in the heap at entry was allocated before entry
 			if v.Go != nil && strings.HasPrefix(sort, "(Array Int ") {
+				if n, ok := types.Unalias(v.Go).(*types.Named); ok && n.Obj().Pkg() != nil && n.Obj().Pkg().Path() == "sync/atomic" && n.Obj().Name() == "Pointer" && sort == "(Array Int Int)" {
+					// atomic.Pointer[T] holds a pointer
+					fv.sess.decls = append(fv.sess.decls, fmt.Sprintf("(assert (forall ((r!h Int)) (! (<= (select %s r!h) alloc0) :pattern ((select %s r!h)))))", name, name))
+				}
 				switch u := types.Unalias(v.Go).Underlying().(type) {
 				case *types.Pointer:
 					fv.sess.decls = append(fv.sess.decls, fmt.Sprintf("(assert (forall ((r!h Int)) (! (<= (select %s r!h) alloc0) :pattern ((select %s r!h)))))", name, name))
@@ -435,7 +439,11 @@ func (fv *FV) convertTo(st *State, v Val, t types.Type) Val {
 			return v
 		}
 		fn := "box_" + sanitize(v.S)
-		fv.sess.decl("fn:"+fn, fmt.Sprintf("(declare-fun %s (%s) Any)", fn, v.S))
+		// a boxed concrete value is never the nil interface (even a nil pointer
+		// makes a non-nil interface value), and boxing is injective
+		fv.sess.decl("fn:"+fn, fmt.Sprintf("(declare-fun %s (%s) Any)\n(declare-fun un%s (Any) %s)\n"+
+			"(assert (forall ((x %s)) (! (and (not (= (%s x) nil!Any)) (= (un%s (%s x)) x)) :pattern ((%s x)))))",
+			fn, v.S, fn, v.S, v.S, fn, fn, fn, fn))
 		return Val{T: fmt.Sprintf("(%s %s)", fn, v.T), S: "Any", Go: t}
 	}
 	if v.S == "Any" && v.T == "nil!Any" {
